@@ -77,7 +77,11 @@ def evaluate(case):
         return res
     page = V.Page(run.text)
     exp = M.expected(module)
+    multiline_value = any(it["k"] == "set" and it.get("doc") and any("\n" in v for v in it["values"])
+                          for it, _, _ in G.walk(module["items"]))
     for f in C.structure_checks(page):
+        if f[0] == "stray-top-level" and multiline_value:
+            continue        # a value with a line break continues at column 0 (argument values with line breaks: C07's carve-out)
         res.fail(*f)
     for f in C.compare_entries(exp, page):
         res.fail(*f)
